@@ -47,11 +47,21 @@ PROP = 'C12'
 LEVEL = 'exploration'
 RULE = ('One case = one paragraph of one class (Dsc, Changes, BuildInfo, PdiffIndex, Release x {apt-ftparchive, dak}) '
         'with a chosen subset of the class\'s structured fields present, each with 1..4 (rarely up to 12) records over '
-        'non-empty whitespace-free tokens (sizes 1..18 digits), either as generated text that is parsed, or as an '
-        'object built from record lists; the case is dumped and re-parsed.  Subsets are enumerated completely for the '
-        '4-field classes and up to size 3 (quick) / 4 (thorough) for PdiffIndex, larger ones are sampled.  A case is '
-        'non-trivial when at least one structured field of the class is absent and at least one present field has '
-        '>= 2 records.')
+        'non-empty whitespace-free tokens (sizes 1..18 digits, up to 24 inside histories), either as generated text that is '
+        'parsed, or as an object built from record lists; the case is dumped and re-parsed.  Subsets are enumerated completely '
+        'for the 4-field classes and up to size 3 (quick) / 4 (thorough) for PdiffIndex, larger ones are sampled.  '
+        'Workload classes beyond that: (a) PdiffIndex with SHA1-/SHA256-Current given as a list of 2..4 records whose sizes '
+        'all differ in length (parsed multi-line text, or built), and PARSED PdiffIndex text in which 1..3 of the '
+        'History/Patches/Download fields carry their only record on the field line; (b) HISTORIES: one parsed or built '
+        'object, 2..4 dumps, 0..3 public-API mutations before each dump - Release.size_field_behavior switched (attribute '
+        'assignment or set_size_field_behavior), a present structured field re-assigned with a new record list (sizes longer / '
+        'shorter / of mixed length relative to the old ones), an absent one added, a present one removed (del / pop), and the '
+        'list returned by obj[field] edited in place (append / insert / pop of a record, a record\'s size or other sub-field '
+        'overwritten; on a field held as one mapping only the overwrite) - every dump of a history is judged (dump returns, '
+        'width rule of the current behaviour and records, re-parse equals the current records); configurations rotate '
+        'Release(apt) 3 : Release(dak) 3 : PdiffIndex 4 : Dsc 1 : Changes 1 : BuildInfo 1.  '
+        'A single-dump case is non-trivial when at least one structured field of the class is absent and at least one present '
+        'field has >= 2 records; a history is non-trivial when it has >= 2 judged dumps and that condition held at one of them.')
 ASSUMPTIONS = [
     'vp.models.mvrecords.DOC is a faithful transcription of the documented sub-field names/order of every structured field',
     'domain: records over NON-EMPTY tokens without any str.isspace() character; >= 1 record per present field '
@@ -60,6 +70,18 @@ ASSUMPTIONS = [
     'it is applied to multi-line (one record per continuation line) output only, not to a record dumped on the field line',
     'generated text separates tokens with runs of plain spaces only and continuation lines start with one space',
     'sub-field names are checked by item access (rec[name]) and record length, not by key order or key spelling case',
+    'histories: the value returned by obj[field] for a field parsed from multi-line text or assigned as a list is taken to be THE stored '
+    'list (comment in _multivalued.validate_input: "we allow mutable lists"), so an in-place edit must show in the next dump; a history never '
+    'pops the last record of a field (empty list = outside the domain) and appends/inserts/pops only on fields the model holds as a list; '
+    'on a field parsed from a record on the field line only rec[name] = token is used, through whatever obj[field] returns '
+    '(the mapping itself, or element [i] if it is a list)',
+    'histories: after a mutation the width rule is the documented one for the CURRENT size_field_behavior and the CURRENT records of '
+    'that field (16, or the longest size now present); nothing is demanded about the live object other than through its dump '
+    '(the records exposed by the mutated object itself, e.g. int vs str sizes, are not compared)',
+    'histories: fields are addressed with any letter case of the field name (mappings are documented case-insensitive); which spelling '
+    'a dump prints is not judged; record sub-fields are addressed by their documented names only',
+    'histories: a mutation through the public API that raises is reported (history-mutation-raises/...): every mutation used is plain '
+    'mapping/list/attribute use on values inside the domain, and size_field_behavior is only ever set to its two documented values',
 ]
 ANCHORS = ['debian.deb822:_multivalued.__init__',
            'debian.deb822:_multivalued.get_as_string',
@@ -335,6 +357,12 @@ def op_kind(op, state):
     return op[0]
 
 
+# coarse class of a mutation kind: suffix of the mechanism key of a judgement made after it
+OP_CLASS = {'behavior': 'behavior-switch', 'reassign': 'field-assignment', 'add-absent': 'field-assignment',
+            'delete': 'field-deletion', 'append': 'in-place-edit', 'insert': 'in-place-edit', 'pop': 'in-place-edit',
+            'set-size': 'in-place-edit', 'set-token': 'in-place-edit'}
+
+
 def _maxlen(recs):
     return max(len(x[1]) for x in recs)
 
@@ -594,8 +622,8 @@ def do_dump(obj, via):
     return obj.dump()
 
 
-def dump_key(case, exc, absent, singles):
-    tag = case['cls'].lower() if case['behavior'] is None else '%s-%s' % (case['cls'].lower(), case['behavior'])
+def dump_key(clsname, behavior, exc, absent, singles):
+    tag = clsname.lower() if behavior is None else '%s-%s' % (clsname.lower(), behavior)
     if isinstance(exc, KeyError) and exc.args and str(exc.args[0]).lower() in absent:
         return '%s-dump-keyerror-when-structured-field-absent' % tag
     if isinstance(exc, TypeError) and singles:
@@ -603,7 +631,7 @@ def dump_key(case, exc, absent, singles):
     return 'dump-raises/%s/%s' % (tag, type(exc).__name__)
 
 
-def check_alignment(ctx, case, txt, expect):
+def check_alignment(ctx, clsname, behavior, txt, expect, suffix=''):
     blocks = mv.field_blocks(txt)
     for f, recs in sorted(expect.items()):
         block = blocks.get(f, [])
@@ -616,7 +644,7 @@ def check_alignment(ctx, case, txt, expect):
         if len(lines) != len(recs):
             ctx.count('align:skipped-line-count')     # decided by the re-parse check, not here
             continue
-        width = mv.expected_width(case['cls'], case['behavior'], [rec[1] for rec in recs])
+        width = mv.expected_width(clsname, behavior, [rec[1] for rec in recs])
         for line, rec in zip(lines, recs):
             col = mv.size_column(line)
             if col is None or col[0] != rec[0] or col[2] != rec[1]:
@@ -625,12 +653,174 @@ def check_alignment(ctx, case, txt, expect):
             ctx.mon('M.align')
             want = max(0, width - len(rec[1]))
             if col[1] != want:
-                which = '16' if (case['cls'] == 'Release' and case['behavior'] == 'apt-ftparchive') else 'longest'
-                ctx.violation('size-column-not-right-aligned-to-%s' % which,
+                which = '16' if (clsname == 'Release' and behavior == 'apt-ftparchive') else 'longest'
+                ctx.violation('size-column-not-right-aligned-to-%s%s' % (which, suffix),
                               '%s(%s) field %r: dumped line %r pads the size %r with %d spaces, documented width %d needs %d'
-                              % (case['cls'], case['behavior'], f, line, rec[1], col[1], width, want))
+                              % (clsname, behavior, f, line, rec[1], col[1], width, want))
                 return False
     return True
+
+
+def build_record(deb822, names, rec, rectype, int_size):
+    d = dict(zip(names, rec))
+    if int_size and rec[1].isascii() and rec[1].isdigit() and str(int(rec[1])) == rec[1]:
+        d['size'] = int(rec[1])
+    if rectype == 'deb822dict':
+        d = deb822.Deb822Dict(d)
+    return d
+
+
+def lib_apply(deb822, obj, op, table):
+    """One mutation through the public API of the live object."""
+    k = op[0]
+    if k == 'behavior':
+        if op[2] == 'setter':
+            obj.set_size_field_behavior(op[1])
+        else:
+            obj.size_field_behavior = op[1]
+    elif k == 'assign':
+        obj[op[1]] = [build_record(deb822, table[op[2]], rec, op[4], op[5]) for rec in op[3]]
+    elif k == 'delete':
+        if op[3] == 'pop':
+            obj.pop(op[1])
+        else:
+            del obj[op[1]]
+    elif k == 'append':
+        obj[op[1]].append(build_record(deb822, table[op[2]], op[3], op[4], op[5]))
+    elif k == 'insert':
+        obj[op[1]].insert(op[3], build_record(deb822, table[op[2]], op[4], op[5], op[6]))
+    elif k == 'pop':
+        obj[op[1]].pop(op[3])
+    elif k == 'set':
+        val = obj[op[1]]
+        target = val if hasattr(val, 'keys') else val[op[3]]     # single-line form: the field IS the record
+        tok = op[5]
+        if op[6] and tok.isascii() and tok.isdigit() and str(int(tok)) == tok:
+            tok = int(tok)
+        target[op[4]] = tok
+    else:
+        raise ValueError('unknown history op %r' % (op,))
+
+
+def widths_of(clsname, behavior, state):
+    """Documented size-column width of every multi-line field, as the model stands."""
+    return dict((f, mv.expected_width(clsname, behavior, [x[1] for x in recs]))
+                for f, recs in state['recs'].items() if state['form'][f] == 'list')
+
+
+def dump_and_judge(ctx, cls, clsname, obj, state, via, origin, suffix=''):
+    """dump() must return text; size column per CURRENT behaviour and records; text re-parses to the
+    CURRENT records.  False after a violation."""
+    table = mv.DOC[clsname]
+    expect = state['recs']
+    behavior = state['behavior']
+    for f, recs in expect.items():
+        if not recs:
+            raise ValueError('case outside the domain: empty record list for %r' % f)
+        for rec in recs:
+            for tok in rec:
+                if not mv.is_ws_free_token(tok):
+                    raise ValueError('case outside the domain: token %r' % tok)
+    absent = [f for f in table if f not in expect]
+    singles = sorted(f for f in expect if state['form'][f] == 'single')
+    if absent:
+        ctx.count('has-absent-field')
+    if clsname == 'PdiffIndex':
+        for f in PD_CURRENT:
+            if f in expect and state['form'][f] == 'list' and len(set(len(x[1]) for x in expect[f])) >= 2:
+                ctx.count('pdiff:current-list-mixed-sizes')
+                ctx.count('pdiff:current-list-mixed-sizes:%s' % origin)
+                break
+        if origin == 'parsed' and any(pd_is_3col(f) for f in singles):
+            ctx.count('pdiff:parsed-single-line-3col')
+
+    ctx.mon('M.dump')
+    try:
+        txt = do_dump(obj, via)
+    except Exception as e:
+        ctx.violation(dump_key(clsname, behavior, e, absent, singles) + suffix,
+                      'dump() of a %s %s(%s) raised %s(%s); present=%r absent=%r single-line=%r'
+                      % (origin, clsname, behavior, type(e).__name__, e, sorted(expect), sorted(absent), singles))
+        return False
+    if not isinstance(txt, str):
+        ctx.violation('dump-returns-non-text' + suffix, 'dump() returned %r' % (txt,))
+        return False
+
+    if clsname in mv.ALIGNED:
+        if not check_alignment(ctx, clsname, behavior, txt, expect, suffix):
+            return False
+
+    ctx.mon('M.reparse')
+    try:
+        obj2 = cls(txt)
+    except Exception as e:
+        ctx.violation('reparse-raises/%s%s' % (type(e).__name__, suffix),
+                      'parsing the dumped text %r raised %r' % (txt, e))
+        return False
+    bad = compare_records(obj2, table, expect)
+    if bad:
+        ctx.violation('roundtrip-%s-%s%s' % (origin, bad[0], suffix),
+                      '%s(%s): dump -> parse: %s; dumped=%r' % (clsname, behavior, bad[1], txt))
+        return False
+    return True
+
+
+def run_history(ctx, deb822, cls, clsname, obj, state, ops, origin):
+    table = mv.DOC[clsname]
+    ctx.count('hist:case')
+    since = []            # mutation kinds since the previous dump
+    ndump = 0
+    prev_widths = None
+    nontriv = False
+    for op in ops:
+        if op[0] != 'dump':
+            kind = op_kind(op, state)
+            ctx.count('hist:op:%s' % kind)
+            if op[0] in ('append', 'insert', 'pop', 'set'):
+                ctx.count('hist:op:in-place(any)')
+            try:
+                lib_apply(deb822, obj, op, table)
+            except Exception as e:
+                ctx.violation('history-mutation-raises/%s/%s' % (kind, type(e).__name__),
+                              '%s(%s) %s: public-API mutation %r raised %r; model before it: %r'
+                              % (clsname, state['behavior'], origin, op, e, state['recs']))
+                return
+            model_apply(state, op, table)
+            since.append(kind)
+            continue
+        ndump += 1
+        ctx.count('hist:dump')
+        suffix = '/after-%s' % OP_CLASS[since[-1]] if since else ('/redump-unchanged' if ndump > 1 else '')
+        if ndump > 1:
+            ctx.count('hist:redump')
+            if not since:
+                ctx.count('hist:redump-unchanged')
+        for kind in set(since):
+            ctx.count('hist:dump-after:%s' % kind)
+        if 'behavior' in since:
+            ctx.count('hist:dump-after-switch-to:%s' % state['behavior'])
+        if any(OP_CLASS[k] == 'in-place-edit' for k in since):
+            ctx.count('hist:dump-after-in-place-edit:%s' % origin)
+        if clsname in mv.ALIGNED:
+            widths = widths_of(clsname, state['behavior'], state)
+            if prev_widths is not None:
+                common = [f for f in widths if f in prev_widths]
+                if any(widths[f] > prev_widths[f] for f in common):
+                    ctx.count('hist:redump-width-grew')
+                if any(widths[f] < prev_widths[f] for f in common):
+                    ctx.count('hist:redump-width-shrank')
+                if any(widths[f] != prev_widths[f] for f in common):
+                    ctx.count('hist:redump-width-changed:%s' % clsname)
+            prev_widths = widths
+        if [f for f in table if f not in state['recs']] and any(len(v) >= 2 for v in state['recs'].values()):
+            nontriv = True
+        if not dump_and_judge(ctx, cls, clsname, obj, state, op[1], origin, suffix):
+            return
+        ctx.mon('M.hist')
+        since = []
+    ctx.count('hist:dumps-per-case:%d' % ndump)
+    if nontriv and ndump >= 2:
+        ctx.nontrivial()
 
 
 def run_case(ctx, case):
@@ -645,7 +835,6 @@ def run_case(ctx, case):
     if case['behavior']:
         ctx.count('behavior:%s' % case['behavior'])
 
-    singles = []
     if mode == 'text':
         expect = case['expect']
         ctx.count('input:%s' % case['input'])
@@ -658,15 +847,12 @@ def run_case(ctx, case):
             obj.size_field_behavior = case['behavior']
         for f, form in case['forms'].items():
             ctx.count('form:%s' % form)
-            if form == 'single':
-                singles.append(f)
         ctx.mon('M.parse')
         bad = compare_records(obj, table, expect)
         if bad:
             ctx.violation('parse-%s' % bad[0], '%s(%s input): %s; text=%r' % (clsname, case['input'], bad[1], case['text']))
             return
     else:
-        expect = {}
         obj = cls()
         if case['behavior']:
             obj.size_field_behavior = case['behavior']
@@ -675,16 +861,8 @@ def run_case(ctx, case):
                 obj[it[0]] = it[2]
                 continue
             key, _, lower, recs = it
-            expect[lower] = recs
-            names = table[lower]
-            built = []
-            for rec in recs:
-                d = dict(zip(names, rec))
-                if case.get('int_sizes') and rec[1].isascii() and rec[1].isdigit() and str(int(rec[1])) == rec[1]:
-                    d['size'] = int(rec[1])
-                if case.get('rectype') == 'deb822dict':
-                    d = deb822.Deb822Dict(d)
-                built.append(d)
+            built = [build_record(deb822, table[lower], rec, case.get('rectype'), case.get('int_sizes'))
+                     for rec in recs]
             try:
                 obj[key] = built
             except Exception as e:
@@ -693,48 +871,19 @@ def run_case(ctx, case):
                 return
         ctx.count('rectype:%s' % case.get('rectype'))
 
-    for f, recs in expect.items():
-        for rec in recs:
-            for tok in rec:
-                if not mv.is_ws_free_token(tok):
-                    raise ValueError('case outside the domain: token %r' % tok)
-    absent = [f for f in table if f not in expect]
-    ctx.count('present:%d' % len(expect))
-    if absent and any(len(v) >= 2 for v in expect.values()):
+    state = initial_state(case)
+    origin = 'parsed' if mode == 'text' else 'built'
+    ctx.count('present:%d' % len(state['recs']))
+
+    if 'ops' in case:
+        ctx.count('kind:history')
+        run_history(ctx, deb822, cls, clsname, obj, state, case['ops'], origin)
+        return
+
+    ctx.count('kind:single-dump')
+    if [f for f in table if f not in state['recs']] and any(len(v) >= 2 for v in state['recs'].values()):
         ctx.nontrivial()
-    if absent:
-        ctx.count('has-absent-field')
-
-    # dump must not fail
-    ctx.mon('M.dump')
-    try:
-        txt = do_dump(obj, case.get('dump_via', 'str'))
-    except Exception as e:
-        ctx.violation(dump_key(case, e, absent, singles),
-                      'dump() of a %s %s(%s) raised %s(%s); present=%r absent=%r single-line=%r'
-                      % ('parsed' if mode == 'text' else 'built', clsname, case['behavior'], type(e).__name__, e,
-                         sorted(expect), sorted(absent), singles))
-        return
-    if not isinstance(txt, str):
-        ctx.violation('dump-returns-non-text', 'dump() returned %r' % (txt,))
-        return
-
-    # size column
-    if clsname in mv.ALIGNED:
-        if not check_alignment(ctx, case, txt, expect):
-            return
-
-    # re-parse
-    ctx.mon('M.reparse')
-    try:
-        obj2 = cls(txt)
-    except Exception as e:
-        ctx.violation('reparse-raises/%s' % type(e).__name__, 'parsing the dumped text %r raised %r' % (txt, e))
-        return
-    bad = compare_records(obj2, table, expect)
-    if bad:
-        ctx.violation('roundtrip-%s-%s' % ('parsed' if mode == 'text' else 'built', bad[0]),
-                      '%s(%s): dump -> parse: %s; dumped=%r' % (clsname, case['behavior'], bad[1], txt))
+    dump_and_judge(ctx, cls, clsname, obj, state, case.get('dump_via', 'str'), origin)
 
 
 LEVEL_TEXT = ('Runtime monitoring: for Dsc, Changes, BuildInfo, PdiffIndex and Release (both size_field_behavior values) the live '
@@ -742,8 +891,11 @@ LEVEL_TEXT = ('Runtime monitoring: for Dsc, Changes, BuildInfo, PdiffIndex and R
               'of the 4-field classes and every subset up to size 3 (quick) / 4 (thorough) of PdiffIndex\'s 14 fields is driven, '
               'plus sampled larger ones.  A record model (independent table of documented sub-field names) checks the exposed '
               'records, that dump() returns, that dump -> parse gives the same records in order, and the size-column width on '
-              'the dumped lines.  Held-on-observed, not a proof.')
+              'the dumped lines.  Histories keep one object alive over 2..4 dumps with public-API mutations between them (behaviour '
+              'switch, field re-assigned / added / deleted, stored record list edited in place) and apply the same three judgements '
+              'after every dump against the record model as mutated.  Held-on-observed, not a proof.')
 LEVEL_NOTE = ('Trusted: CPython, vp.models.mvrecords (documented tables, 10-line field splitter), the generator\'s text layout '
               'bookkeeping.  Domain: non-empty whitespace-free tokens, >= 1 record per present field.')
 TECHNIQUE = ('runtime monitoring: boundary oracle M (record model) on parse / dump / re-parse of the live classes over enumerated '
-             'presence subsets and random record lists; column monitor on the dumped lines')
+             'presence subsets and random record lists; column monitor on the dumped lines; model-based histories '
+             '(mutate through the public API, re-dump, re-judge) on one live object')
